@@ -48,7 +48,11 @@ RULE_ADDED = (
               'e last one). '
               ' '
               'Round 13: authorization objects used on after add_signature refused a signature '
-              '(more signatures, save, load). ')
+              '(more signatures, save, load). '
+              ' '
+              'Round 14: keys given with 0x / 0X prefixes and in upper case, keys with leading '
+              'or trailing zero digits: refused, or the signature is by the key the digits deno'
+              'te. ')
 RULE = RULE + " " + RULE_ADDED.strip()
 ASSUMPTIONS = [
     "own Keccak-256 (pv/oracle/hashes.py) and OpenSSL verification are the oracles",
